@@ -530,6 +530,62 @@ func TestC10(t *testing.T) {
 		}
 	}
 
+	// identifier shapes and union shapes: a small program whose names are, one role at a time, identifiers that
+	// start with a keyword and go on with '_' or a digit, contain digits and underscores, or only resemble a
+	// keyword; and relation types that name a namespace both plainly and through a SubjectSet, in both orders and
+	// both array spellings. Each must parse to what it denotes.
+	shapeCases := 0
+	{
+		idents := []string{"this_doc", "class_members", "ctx_owner", "implements_policy", "this1", "class2", "ctx_", "implements9", "_this", "x_y", "_", "a1", "A_B_C", "thisDoc", "classes", "contexts", "implementsX", "Namespace_", "related_", "permits1"}
+		base := [5]string{"Usr", "Obj", "rel1", "rel2", "perm"}
+		mk := func(n [5]string, types []TypeRef) *Prog {
+			return &Prog{NS: []NSDecl{
+				{Name: n[0]},
+				{Name: n[1],
+					Rels:  []RelDecl{{n[2], types}, {n[3], []TypeRef{{n[1], ""}}}},
+					Perms: []PermDecl{{n[4], Bin('|', Atom(LIncludes, n[2], ""), Atom(LTravPermits, n[3], n[4]))}}},
+			}}
+		}
+		try := func(prog *Prog, st Style, class, what string) {
+			text, _ := Join(prog.Tokens(st), LayoutPretty, -1, "")
+			shapeCases++
+			cnt.evals.Add(1)
+			nss, errs := schema.Parse(text)
+			info := map[string]any{"class": class, "style": what, "doc": text}
+			if len(errs) > 0 {
+				agg.add("variant-rejected:"+class, fmt.Sprintf("a valid document (%s) is rejected: %s", what, errs[0].ToAPI().Message), len(text), info)
+				return
+			}
+			cnt.accepted.Add(1)
+			if got, w := normNamespacesUnordered(nss), normNamespacesUnordered(prog.Denotes()); got != w {
+				agg.add("variant-misread:"+class, fmt.Sprintf("a document (%s) denotes %s but parsed to %s", what, w, got), len(text), info)
+			}
+		}
+		plain := Style{CtxType: true, BoolType: true, LambdaParen: true}
+		for role := 0; role < 5; role++ {
+			for _, id := range idents {
+				n := base
+				n[role] = id
+				try(mk(n, []TypeRef{{n[0], ""}}), plain, "identifier-shape", fmt.Sprintf("%s as the name of role %d (0 subject namespace, 1 object namespace, 2-3 relations, 4 permission)", id, role))
+			}
+		}
+		unions := [][]TypeRef{
+			{{"Usr", ""}, {"Obj", ""}, {"Obj", "rel2"}},
+			{{"Obj", "rel2"}, {"Obj", ""}, {"Usr", ""}},
+			{{"Obj", ""}, {"Obj", "rel2"}},
+			{{"Obj", "rel2"}, {"Obj", ""}},
+			{{"Obj", "rel2"}, {"Obj", "rel1"}},
+			{{"Usr", ""}, {"Obj", "rel1"}, {"Obj", ""}, {"Obj", "rel2"}},
+		}
+		for ui, u := range unions {
+			for _, generic := range []bool{false, true} {
+				st := plain
+				st.ArrayGeneric = generic
+				try(mk(base, u), st, "union-shape", fmt.Sprintf("union #%d %v, Array<> spelling=%v", ui, u, generic))
+			}
+		}
+	}
+
 	// a parse result denotes its source for as long as the caller holds it: the namespaces returned for document a
 	// are compared with their own rendering after document b was parsed (every ordered pair of documents, single
 	// OS thread, no garbage collection in between, so that whatever Parse recycles is what the next Parse gets)
@@ -584,22 +640,23 @@ func TestC10(t *testing.T) {
 		"distinct_nontrivial": int(cnt.nontrivial.Load()),
 		"rule": "every (tree shape x operator assignment x '!' placement with <=2 per path x leaf-kind rotation) with <= max_binary_operators, each in 4 parenthesis layouts; every '(' / '!(' wrapper string of length <= 9; full product of the spelling dimensions x 5 layouts on 2 documents + one comment in every token gap. " +
 			"distinct_nontrivial counts (a) trees (pairwise distinct by construction, each judged in 4 layouts) with >= 2 binary operators or a '!', plus (b) accepted spelling variants (pairwise distinct texts: every style dimension changes the text of both documents) compared against the source AST",
-		"max_binary_operators":    K,
-		"tree_indices":            total,
-		"tree_indices_void":       int(voidIdx.Load()),
-		"trees":                   int(trees.Load()),
-		"tree_renderings":         int(perParen[0].Load() + perParen[1].Load() + perParen[2].Load() + perParen[3].Load()),
-		"nesting_cases":           int(nestCases.Load()),
-		"spelling_variants":       int(variants.Load()),
-		"spelling_not_demanded":   int(variantSkipped.Load()),
-		"comment_gap_cases":       int(gapCases.Load()),
-		"result_lifetime_pairs":   lifetimePairs,
-		"accepted":                int(cnt.accepted.Load()),
-		"beyond_nesting_limit":    int(cnt.overLimit.Load()),
-		"style_dimensions":        dims,
-		"layouts":                 layoutName,
-		"paren_layouts":           parenName,
-		"violations_by_signature": sigs,
-		"exhaustive":              true,
+		"max_binary_operators":             K,
+		"tree_indices":                     total,
+		"tree_indices_void":                int(voidIdx.Load()),
+		"trees":                            int(trees.Load()),
+		"tree_renderings":                  int(perParen[0].Load() + perParen[1].Load() + perParen[2].Load() + perParen[3].Load()),
+		"nesting_cases":                    int(nestCases.Load()),
+		"spelling_variants":                int(variants.Load()),
+		"spelling_not_demanded":            int(variantSkipped.Load()),
+		"comment_gap_cases":                int(gapCases.Load()),
+		"result_lifetime_pairs":            lifetimePairs,
+		"identifier_and_union_shape_cases": shapeCases,
+		"accepted":                         int(cnt.accepted.Load()),
+		"beyond_nesting_limit":             int(cnt.overLimit.Load()),
+		"style_dimensions":                 dims,
+		"layouts":                          layoutName,
+		"paren_layouts":                    parenName,
+		"violations_by_signature":          sigs,
+		"exhaustive":                       true,
 	})
 }
